@@ -295,6 +295,47 @@ class SymElemFactory:
         return SymFactory.seq(outer, self.prefix + name, builder, inv, pair_inv, max_len)
 
 
+_CTOR_CONSTANTS = {}
+
+
+def _ctor_constants(cls):
+    """{attribute: builder of its initial value} for the `self.<attr> = <constant>` statements of the constructors along the MRO
+    (constants: None, booleans, numbers, strings, empty list / dict / set); attributes assigned more than once are left out"""
+    if cls in _CTOR_CONSTANTS:
+        return _CTOR_CONSTANTS[cls]
+    import ast, inspect, textwrap
+    out = {}
+    for c in reversed(cls.__mro__):
+        init = c.__dict__.get('__init__')
+        if init is None:
+            continue
+        try:
+            tree = ast.parse(textwrap.dedent(inspect.getsource(init)))
+        except (OSError, TypeError, SyntaxError):
+            continue
+        seen = {}
+        for n in ast.walk(tree):
+            if isinstance(n, (ast.Assign, ast.AnnAssign)) and n.value is not None:
+                for t in (n.targets if isinstance(n, ast.Assign) else [n.target]):
+                    if isinstance(t, ast.Attribute) and isinstance(t.value, ast.Name) and t.value.id == 'self':
+                        seen.setdefault(t.attr, []).append(n.value)
+        for attr, values in seen.items():
+            out.pop(attr, None)
+            if len(values) != 1:
+                continue
+            v = values[0]
+            if isinstance(v, ast.Constant) and isinstance(v.value, (type(None), bool, int, str)):
+                out[attr] = (lambda x: (lambda: x))(v.value)
+            elif isinstance(v, ast.List) and not v.elts:
+                out[attr] = list
+            elif isinstance(v, ast.Dict) and not v.keys:
+                out[attr] = dict
+            elif isinstance(v, ast.Call) and isinstance(v.func, ast.Name) and v.func.id in ('dict', 'list', 'set') and not v.args and not v.keywords:
+                out[attr] = {'dict': dict, 'list': list, 'set': set}[v.func.id]
+    _CTOR_CONSTANTS[cls] = out
+    return out
+
+
 class ConcreteFactory:
     """Concrete factory for replay (values from a solver model) and for bounded search (values from an enumerator)."""
     symbolic = False
@@ -383,6 +424,11 @@ class ConcreteFactory:
             obj = cls(*ctor)
         else:
             obj = cls.__new__(cls)
+            # S-ctor-default (as in the symbolic run): an attribute the current constructor initialises with a constant and the
+            # contract does not know yet gets that initial value
+            for k, v in _ctor_constants(cls).items():
+                if k not in fields:
+                    object.__setattr__(obj, k, v())
         for k, v in fields.items():
             object.__setattr__(obj, k, v)
         return obj
